@@ -32,7 +32,7 @@ const c03HeaderLimit = 800 * time.Millisecond
 // httpcl / httpte: the upstream proxy's 200 carries Content-Length: 5 / Transfer-Encoding: chunked
 // mitmupgrade: an Upgrade request read from an intercepted (MITM) session, the 101 relayed inside it: the tunnel runs between
 // the two TLS sessions
-var c03Routes = []string{"direct", "http", "https", "socks5", "connectfunc", "upgrade", "tlsboth", "httpcl", "httpte", "mitmupgrade"}
+var c03Routes = []string{"direct", "http", "https", "socks5", "connectfunc", "upgrade", "tlsboth", "httpcl", "httpte", "mitmupgrade", "handler"}
 
 type nameTable struct {
 	mu sync.Mutex
@@ -360,6 +360,8 @@ func newC03Env(seed int64) *c03Env {
 			fc.TLS = true
 		case "mitmupgrade":
 			fc.MITM = true
+		case "handler":
+			fc.Handler = true // the http.Handler variant: the tunnel is set up on a hijacked connection
 		case "socks5":
 			fc.Upstream = "socks5://" + addrC
 		case "connectfunc":
